@@ -258,7 +258,9 @@ def _w7_keys(prog, res):
   for fn in (build, call, shape):
     ok = False
     for n in ast.walk(fn.node):
-      if isinstance(n, ast.For) and dotted(n.iter) == 'self._rtl_structure' \
+      # a for statement or a comprehension clause over the structure
+      if isinstance(n, (ast.For, ast.comprehension)) and dotted(
+          n.iter) == 'self._rtl_structure' \
           and isinstance(n.target, ast.Tuple) and [
               dotted(e) for e in n.target.elts] == ['monotonicities',
                                                     'inputs_for_units']:
